@@ -71,7 +71,7 @@ pub fn sweep(max: usize) -> impl Fn(&mut Tape, &mut Case) -> CaseResult {
                 eqw(&w4, &wr, "BoxedUint::wrapping_shr_vartime", s)?;
                 eqw(&p1, &wl, "BoxedUint::shl", s)?;
                 eqw(&p2, &wr, "BoxedUint::shr", s)?;
-            } else if s == bits || s == bits + 1 || s == 2 * bits + 1 || s == u32::MAX as u64 {
+            } else if s == bits || s == bits + 1 || s == 2 * bits + 1 || s == u32::MAX as u64 || (s > 2 * bits + 1 && (s & 63) <= 1 && (s >> 31 == 1 || s >> 16 == 1)) {
                 panics_iff(guard(|| a.shl(s32)), true, &wl, "BoxedUint::shl", s)?;
                 panics_iff(guard(|| a.shr(s32)), true, &wr, "BoxedUint::shr", s)?;
                 let acc_l = wrap_accept(&xl, s, shl_o, wl.clone());
